@@ -1,8 +1,16 @@
 /* C18/C17/C01: igzip/huff_codes.c -- harnesses over the real (static) functions */
 #define HUFF_WITH_CODES
 #include "igzip_huff.h"
-#include "stubs_huff.h"
-uint32_t g_lcode, g_llen, g_k, w_ret, g_lit, g_lsym, g_dsym, g_c, g_k0, g_r0, g_k1, g_r1;
+uint32_t g_lcode, g_llen, g_k, w_ret, g_lit, g_lsym, g_dsym, g_c, g_k0, g_r0, g_k1, g_r1, g_n;
+uint64_t g_osz;
+/* flatten_ll (igzip/flatten_ll.c): ASSUMED frame -- rewrites the 513 lit/len counters it is handed */
+void
+flatten_ll(uint32_t *ll_hist)
+        /* clang-format off */
+__CPROVER_requires(__CPROVER_w_ok(ll_hist, 513 * 4))
+__CPROVER_assigns(__CPROVER_object_upto((uint8_t *) ll_hist, 513 * 4))
+__CPROVER_ensures(1);
+/* clang-format on */
 #include "splice_defaults.h"
 #include "igzip/huff_codes.c"
 
@@ -66,5 +74,134 @@ h_spec_rl_valid(void)
                          "P(i+1) = P(i) + repeat(entry i)");
         __CPROVER_assert(spec_rl_P(RL_ARGS(v, run), n) == run, "P(n) = run: expansion is exactly run copies");
         __CPROVER_assert(spec_rl_count(RL_ARGS(v, run), c) >= 1, "histogram counts the symbol");
+        VCANARY();
+}
+
+void
+h_create_hufftables_icf_frame(void)
+{
+        struct BitBuf2 *bb;
+        struct hufftables_icf *hufftables;
+        struct isal_mod_hist *hist;
+        uint32_t end_of_block;
+        uint64_t r = create_hufftables_icf(bb, hufftables, hist, end_of_block);
+        (void) r;
+        VCANARY();
+}
+
+/* ---- bounded stand-ins (kind='bounded') ------------------------------------------------------------- */
+#define SB_N 8    /* alphabet size */
+#define SB_MAXL 4 /* longest code */
+/* set_huff_codes on a small alphabet: for EVERY vector of SB_N code lengths in 0..SB_MAXL whose Kraft sum is
+ * <= 1, the codes assigned (stored bit-reversed, i.e. first transmitted bit in bit 0) are prefix-free: for two
+ * different coded symbols a, b with len(a) <= len(b), the first len(a) transmitted bits of b differ from a.
+ * The return value is the largest coded symbol. */
+void
+h_set_huff_codes_small(void)
+{
+        struct huff_code table[SB_N];
+        uint32_t count[MAX_HUFF_TREE_DEPTH + 1];
+        uint32_t kraft = 0, a, b, last = 0;
+        for (int i = 0; i <= MAX_HUFF_TREE_DEPTH; i++)
+                count[i] = 0;
+        for (int i = 0; i < SB_N; i++) {
+                uint8_t l;
+                HARNESS_ASSUME(l <= SB_MAXL);
+                table[i].code_and_length = 0;
+                table[i].length = l;
+                if (l != 0) {
+                        count[l]++;
+                        kraft += 1u << (SB_MAXL - l);
+                        last = i;
+                }
+        }
+        HARNESS_ASSUME(kraft <= (1u << SB_MAXL));
+        uint32_t r = set_huff_codes(table, SB_N, count);
+        HARNESS_ASSUME(a < SB_N && b < SB_N && a != b && table[a].length != 0 && table[b].length != 0 &&
+                       table[a].length <= table[b].length);
+        __CPROVER_assert((table[b].code & ((1u << table[a].length) - 1)) != table[a].code,
+                         "canonical codes are prefix-free (small alphabet)");
+        __CPROVER_assert(table[a].code < (1u << table[a].length), "code fits its length");
+        __CPROVER_assert(r == last, "returns the largest coded symbol");
+        VCANARY();
+}
+
+/* same for set_dist_huff_codes (30 symbols; lengths 0..SB_MAXL on the first SB_N, 0 elsewhere), plus the RFC
+ * extra-bit count it attaches to every coded symbol; the coded symbols are any window of SD_N = 4 of the 30, lengths 0..3 */
+#define SD_N 4
+#define SD_MAXL 3
+void
+h_set_dist_huff_codes_small(void)
+{
+        struct huff_code codes[DIST_LEN];
+        uint32_t bl_count[MAX_DEFLATE_CODE_LEN + 1];
+        uint32_t kraft = 0, a, b, g_w; /* the SB_N coded symbols are any window of the 30 */
+        HARNESS_ASSUME(g_w <= DIST_LEN - SD_N);
+        for (int i = 0; i <= MAX_DEFLATE_CODE_LEN; i++)
+                bl_count[i] = 0;
+        for (int i = 0; i < DIST_LEN; i++) {
+                uint8_t l;
+                HARNESS_ASSUME(l <= SD_MAXL && ((i >= (int) g_w && i < (int) g_w + SD_N) || l == 0));
+                codes[i].code_and_length = 0;
+                codes[i].length = l;
+                if (l != 0) {
+                        bl_count[l]++;
+                        kraft += 1u << (SD_MAXL - l);
+                }
+        }
+        HARNESS_ASSUME(kraft <= (1u << SD_MAXL));
+        uint32_t r = set_dist_huff_codes(codes, bl_count);
+        (void) r;
+        HARNESS_ASSUME(a < DIST_LEN && b < DIST_LEN && a != b && codes[a].length != 0 && codes[b].length != 0 &&
+                       codes[a].length <= codes[b].length);
+        __CPROVER_assert((codes[b].code & ((1u << codes[a].length) - 1)) != codes[a].code,
+                         "canonical distance codes are prefix-free (small alphabet)");
+        __CPROVER_assert(codes[a].extra_bit_count == rfc_dist_extra[a], "RFC extra-bit count attached to the symbol");
+        VCANARY();
+}
+
+/* rl_encode on short sequences: every sequence of 1..RB_N code lengths (values 0..15) is reproduced exactly by
+ * decoding the emitted symbols with the RFC 1951 3.2.7 rules (reference decoder below) */
+#define RB_N 7
+void
+h_rl_encode_small(void)
+{
+        uint16_t codes[RB_N];
+        uint64_t counts[19];
+        struct rl_code out[2 * RB_N];
+        uint32_t num_codes, pos = 0, prev = 0, have_prev = 0, ok = 1;
+        HARNESS_ASSUME(1 <= num_codes && num_codes <= RB_N);
+        for (int i = 0; i < RB_N; i++) {
+                HARNESS_ASSUME(codes[i] <= 15);
+        }
+        for (int i = 0; i < 19; i++)
+                counts[i] = 0;
+        uint32_t n = rl_encode(codes, num_codes, counts, out);
+        __CPROVER_assert(n <= num_codes, "never more symbols than code lengths");
+        uint32_t dec[RB_N];
+        for (uint32_t j = 0; j < 2 * RB_N; j++) {
+                if (j < n && ok) {
+                        uint32_t c = out[j].code, e = out[j].extra_bits, v, rep;
+                        if (c > 18 || !rfc_cl_extra_ok(c, e) || (c == 16 && !have_prev))
+                                ok = 0;
+                        else {
+                                v = c <= 15 ? c : c == 16 ? prev : 0;
+                                rep = rfc_cl_repeat(c, e);
+                                if (pos + rep > num_codes)
+                                        ok = 0;
+                                else
+                                        for (uint32_t k = 0; k < RB_N; k++) /* rep <= num_codes - pos <= RB_N here */
+                                                if (k < rep)
+                                                        dec[pos + k] = v;
+                                pos += rep;
+                                prev = v;
+                                have_prev = 1;
+                        }
+                }
+        }
+        __CPROVER_assert(ok, "every emitted symbol is RFC-valid and the expansion does not overrun");
+        __CPROVER_assert(pos == num_codes, "expansion has exactly num_codes code lengths");
+        HARNESS_ASSUME(g_k < num_codes);
+        __CPROVER_assert(dec[g_k] == codes[g_k], "expansion reproduces the input sequence");
         VCANARY();
 }
